@@ -4,6 +4,7 @@ use std::io::{self, BufRead, Write};
 
 mod util;
 mod words;
+mod fsm;
 
 fn main() {
     let args: Vec<String> = std::env::args().collect();
@@ -25,6 +26,7 @@ fn main() {
         }
         let res = match stream {
             "words" => words::run_case(line),
+            "fsm" => fsm::run_case(line),
             _ => {
                 eprintln!("unknown stream {stream}");
                 std::process::exit(2);
